@@ -348,7 +348,14 @@ def exec_fuse_check(n, descs, k, seed):
         return "skip"
     psi = np.array([complex(rng.randint(-2, 2), rng.randint(-2, 2)) for _ in range(2 ** n)])
     f = c.fuse(max_qubits=k)
-    a, b = exact_state(c, psi), exact_state(f, psi)
+    try:
+        a = exact_state(c, psi)
+    except Exception:
+        return "skip"          # the original circuit is not executable at all (not a fusion matter)
+    try:
+        b = exact_state(f, psi)
+    except Exception as e:
+        return {"original": [str(x) for x in a], "fused_raises": repr(e)}
     if np.array_equal(a, b):
         return None
     return {"original": [str(x) for x in a], "fused": [str(x) for x in b]}
@@ -465,7 +472,7 @@ def run_fuse(run, rng, count, shard=400, n_exec=100):
             groups = [s for s in out if s[0]]
             run.case({"fuse": [n, k, [(d["name"], d["q"]) for d in descs]]},
                      nontrivial=len(descs) >= 3 and len(groups) >= 1)
-            if idx < 3:
+            if groups and len(descs) >= 4 and sum(1 for x in run.samples if x.get("mechanism") == "fuse") < 3:
                 run.sample({"mechanism": "fuse", "nqubits": n, "max_qubits": k,
                             "circuit": [f"{d['name']}{tuple(d['q'])}" for d in descs],
                             "fused_queue": [(s[1], s[2]) if s[0] else s[2][0] for s in out]})
@@ -601,7 +608,7 @@ def run_light_cone(run, rng, count, shard=400, n_exec=60):
             meta.append((idx, n, descs, S, bad))
             run.case({"light_cone": [n, S, [(d["name"], d["q"]) for d in descs]]},
                      nontrivial=0 < len(kept) < len(descs))
-            if idx < 2:
+            if 0 < len(kept) < len(descs) and sum(1 for x in run.samples if x.get("mechanism") == "light_cone") < 2:
                 run.sample({"mechanism": "light_cone", "nqubits": n, "qubits": S,
                             "circuit": [f"{d['name']}{tuple(d['q'])}" for d in descs],
                             "kept": kept, "qubit_map": {str(a): b for a, b in qmap.items()}})
